@@ -278,3 +278,108 @@ class TSOValidator(_OwnerValidator):
     path = "traits/trait_set_object.py"
     qualname = "TraitSetObject._validator"
     cls, kind = "TraitSetObject", "set"
+
+
+# ---------------------------------------------------------------------------------------------
+# TraitListObject.__init__: whatever is handed in -- any iterable, including another trait list --
+# is validated item by item for the new owner, and the length is checked (C04 'after whole-value
+# assignment'; List.validate constructs the object this way).
+# ---------------------------------------------------------------------------------------------
+
+def _item_validator_summary(self, I, self_ref, args, kwargs, st, k):
+    """call-site summary of TraitListObject._item_validator (its contract above): the item trait's validate when the
+    owner is alive and the item trait validates, else the identity (or, with a dead owner, possibly still the
+    item trait's validate -- TraitSetObject does that)."""
+    V = self._i["V"] if getattr(self, "_i", None) else None
+    if V is None:
+        V = Validator(I.cx, "item_trait")
+        self._i = dict(V=V, has_validate=z3.Bool("item_trait_has_validate"))
+    hv, alive = self._i["has_validate"], z3.Bool("owner_alive")
+    (x,) = args
+    xv = as_val(I.cx, x, st)
+    active = z3.And(hv, alive)
+    out = I.cx.branch(st, z3.Or(z3.Not(active), V.ok(xv)),
+                      lambda a: k(VElem(z3.If(active, V.val(xv), xv)), a), lambda b: [])
+    e = V.exc(xv)
+    out += I.cx.branch(st, z3.And(active, z3.Not(V.ok(xv))),
+                       lambda a: [("raise", VExc(sym=e, origin=("validator", V.name, xv)), a.assume(*I.cx.exc_axioms(e)))],
+                       lambda b: [])
+    return out
+
+
+TLOItemValidator.summary = _item_validator_summary
+
+
+@register
+class TLOInit(Contract):
+    path = PATH
+    qualname = "TraitListObject.__init__"
+    properties = ("C04", "C19")
+    inline = (("TraitList", "__init__"),)
+    assumptions = ("A-PY", "A-BUILTIN:list", "A-CB:validator", "A-CB:iterables-are-finite-and-may-carry-any-attribute")
+
+    def configure(self, cx, I, ov):
+        install_owner_hooks(cx)
+        cx.elem_attrs["has_items"] = lambda I2, obj, st, k: k(VBool(z3.Bool("trait_has_items")), st)
+        owner_alive = z3.Bool("owner_alive")
+
+        def weakref_hook(I2, args, st, k):
+            (o,) = args
+            return k(VFunc("opaque", name="object_ref", apply=lambda I3, a, kw, s, kk: I3.cx.branch(
+                s, owner_alive, lambda s1: kk(o, s1), lambda s2: kk(NONE, s2))), st)
+        cx.weakref_hook = weakref_hook
+        c = BY_ID_get("traits/trait_list_object.py:TraitListObject._item_validator")
+        c._i = None
+
+    def setup(self, cx, I, ov):
+        trait, owner = z3.Const("trait", Val), z3.Const("owner", Val)
+        st = St().assume(trait != cx.const("None").t, owner != cx.const("None").t,
+                         0 <= MINLEN(trait), MINLEN(trait) <= MAXLEN(trait))
+        self_ref = VRef(cx.new_oid())
+        # object as left by TraitList.__new__
+        nref = VRef(cx.new_oid())
+        st = st.put(nref.oid, HObj("list", EMPTY_SEQ, None, None, {"pyitems": ()}))
+        st = st.put(self_ref.oid, HObj("list", EMPTY_SEQ, "TraitListObject",
+                                       {"item_validator": Validator(cx, "everything").as_value(), "notifiers": nref}))
+        value, S, st = TL.opaque_iterable(cx, st, "value")
+        st = st.gset("events", ())
+        return st, [self_ref, VElem(trait), VElem(owner), VStr(z3.String("name")), value], {}, dict(
+            self_ref=self_ref, trait=trait, S=S, witness=dict(value=S, minlen=MINLEN(trait), maxlen=MAXLEN(trait)))
+
+    def post(self, cx, I, ov, info, kind, payload, st):
+        S, trait = info["S"], info["trait"]
+        c = BY_ID_get("traits/trait_list_object.py:TraitListObject._item_validator")
+        if not c._i:
+            c._i = dict(V=Validator(cx, "item_trait"), has_validate=z3.Bool("item_trait_has_validate"))
+        V, hv = c._i["V"], c._i["has_validate"]
+        active = z3.And(hv, z3.Bool("owner_alive"))
+        n = z3.Length(S)
+        inb = z3.And(MINLEN(trait) <= n, n <= MAXLEN(trait))
+        j = z3.Int("j!init")
+        s1 = st.heap[info["self_ref"].oid].payload
+        if kind == "return":
+            h = st.heap[info["self_ref"].oid]
+            return [
+                ("post:length-within-bounds", inb),
+                ("post:every-item-validated-for-the-new-owner", z3.And(z3.Length(s1) == n, z3.ForAll([j], z3.Implies(
+                    z3.And(0 <= j, j < n), z3.If(active, z3.And(V.ok(S[j]), s1[j] == V.val(S[j])), s1[j] == S[j]))))),
+                ("post:bound-to-owner-and-trait", z3.BoolVal(
+                    isinstance(h.fields.get("trait"), VElem) and h.fields["trait"].t.eq(trait)
+                    and isinstance(h.fields.get("item_validator"), VFunc) and h.fields["item_validator"].kind == "bound"
+                    and h.fields["item_validator"].name == "_item_validator")),
+            ]
+        if payload.cname == "TraitError":
+            return [("raise:TraitError-only-for-a-length-violation", z3.Not(inb))]
+        if payload.sym is not None:
+            return [("raise:only-a-rejected-item", z3.And(active, z3.Exists([j], z3.And(
+                0 <= j, j < n, z3.Not(V.ok(S[j])), payload.sym == V.exc(S[j])))))]
+        return [("exc-free", z3.BoolVal(False), dict(exception="%s %r" % (payload.cname, payload.origin)))]
+
+    def covers(self, cx, ov, info):
+        return [("constructs", lambda k, p, s: k == "return"),
+                ("rejects-length", lambda k, p, s: k == "raise" and p.cname == "TraitError")]
+
+
+def BY_ID_get(cid):
+    from vc.unit import BY_ID
+    return BY_ID[cid]
